@@ -16,23 +16,31 @@ def main():
     sys.stderr = open(os.devnull, 'w')
     writer = sys.argv[1]
     size = sys.argv[2]
+    order = sys.argv[3] if len(sys.argv) > 3 else 'forward'
     from vmc import build as bd
     from vmc.props import c12
     battery = c12.env_battery(size)
     tmp = tempfile.mkdtemp(prefix='vmcenv_', dir='/dev/shm' if os.path.isdir('/dev/shm') else None)
+    indices = list(range(len(battery)))
+    if order == 'reverse':
+        indices.reverse()
+    elif order == 'interleaved':
+        indices = indices[::2] + indices[1::2]
+    digests = {}
     out = {'digests': [], 'readback': [], 'probe_order': None, 'encoding': locale.getpreferredencoding(False),
            'hashseed': os.environ.get('PYTHONHASHSEED')}
     try:
-        for i, model in enumerate(battery):
+        for i in indices:
+            model = battery[i]
             path = os.path.join(tmp, 'f%d' % i)
             try:
                 fm = bd.build(model)
                 ret = c12.WRITERS[writer](path, fm).transform()
                 data = open(path, 'rb').read()
                 retb = ret if isinstance(ret, bytes) else ret.encode('utf8')
-                out['digests'].append([hashlib.sha256(data).hexdigest()[:16], hashlib.sha256(retb).hexdigest()[:16]])
+                digests[i] = [hashlib.sha256(data).hexdigest()[:16], hashlib.sha256(retb).hexdigest()[:16]]
             except Exception as exc:  # noqa: BLE001
-                out['digests'].append(['raises:' + type(exc).__name__, ''])
+                digests[i] = ['raises:' + type(exc).__name__, '']
                 continue
             reader = c12.READERS.get(writer)
             if reader is not None and c12.readable(writer, model):
@@ -42,6 +50,8 @@ def main():
                     out['readback'].append([i, hashlib.sha256(repr(names).encode('utf8')).hexdigest()[:16]])
                 except Exception as exc:  # noqa: BLE001
                     out['readback'].append([i, 'raises:' + type(exc).__name__])
+        out['digests'] = [digests[i] for i in range(len(battery))]
+        out['readback'].sort()
         probe = set(n for m in battery for n in [f[0] for f in __import__('vmc.shadow', fromlist=['x']).features(m)])
         out['probe_order'] = hashlib.sha256(repr(list(probe)).encode('utf8')).hexdigest()[:12]
     finally:
